@@ -20,7 +20,7 @@ ID = "C12"
 TECHNIQUE = "explicit-state search over call/clock-advance histories on the real cache (sync, async, method), reference LRU with time stamps"
 RULE = (
     "all histories of length L over {call(k) k in (1, 1.0, True) [x receivers r1, r2, r1' == r1 "
-    "for methods] [+ keyword form for functions] [+ re-entrant call(k) whose body calls the next "
+    "for methods] [+ keyword form for functions; sub-family: keyword form for methods, falsy receivers] [+ re-entrant call(k) whose body calls the next "
     "key, sync functions], advance clock by 1 or 4} for limit 1..3 x "
     "expiration {None, 2, 5} x {sync fn, async fn, sync method, async method}; non-trivial = the "
     "history contains a hit and (an eviction or an expiry or two ==-equal differently typed keys)"
@@ -68,6 +68,13 @@ def programs(tier: str):
         for limit in BOUNDS[tier]["limits"]:
             for expiration in (None, 2, 5):
                 yield {"variant": variant, "limit": limit, "expiration": expiration, "L": L}
+    # methods called in keyword form with ==-equal differently typed values, on receivers whose
+    # instances are falsy (empty containers) or not
+    for variant in ("msync", "masync"):
+        for limit in (1, 2):
+            for expiration in (None, 2):
+                for falsy in (False, True):
+                    yield {"variant": variant, "limit": limit, "expiration": expiration, "L": 4 if tier == "quick" else 6, "kwm": True, "falsy": falsy}
     for variant in ("sync", "async"):
         yield {"variant": variant, "limit": 1, "expiration": None, "L": 4, "attrs": True}
         yield {"variant": variant, "limit": 2, "expiration": 2, "L": 4, "attrs": True}
@@ -84,6 +91,8 @@ def _ops(program) -> list[tuple]:
         ops += [("kw", None, 1)]
         if program["variant"] == "sync":
             ops += [("rec", None, 1), ("rec", None, 1.0)]  # call(k) whose body calls the next key
+    elif program.get("kwm"):
+        ops += [("call", "r1", 1), ("kw", "r1", 1), ("kw", "r1", 1.0), ("kw", "r1", True), ("kw", "r1p", 1)]
     else:
         ops += [("call", r, k) for r in ("r1", "r1p", "r2") for k in (1, 1.0)]
     if program["expiration"] is not None:
@@ -162,6 +171,8 @@ def execute(program, ch: Chooser) -> Result:  # noqa: C901, PLR0912, PLR0915
         if variant in ("sync", "async") and program.get("attrs"):
             pass
         recvs = {}
+        if variant in ("msync", "masync") and program.get("falsy"):
+            Owner.__len__ = lambda self: 0  # type: ignore[attr-defined]
         if variant in ("msync", "masync"):
             recvs = {"r1": Owner("r1", 1), "r1p": Owner("r1p", 1), "r2": Owner("r2", 2)}
 
@@ -169,6 +180,8 @@ def execute(program, ch: Chooser) -> Result:  # noqa: C901, PLR0912, PLR0915
             _, r, k = op
             if r is None:
                 call = (lambda: fn(k=k)) if op[0] == "kw" else (lambda: fn(k))
+            elif op[0] == "kw":
+                call = lambda: recvs[r].fn(k=k)  # noqa: E731
             else:
                 call = lambda: recvs[r].fn(k)  # noqa: E731
             if not is_async:
